@@ -40,6 +40,11 @@ def run(rep, tier, seed, replay_file=None):
              kw=dict(workers=1, simulate=dict(num=sim_n), depth=13, seed=seed, timeout=600),
              note="C16 model restricted to push/pop/remove/sort/IsSorted: random walks of depth 12 (sorted list stays usable)"),
     ]
+    # lists longer than 12 elements (Go's sort switches algorithm there): random inputs with many equal keys
+    longcfg = open(tlc.SPEC + "/sort/Sort_longlists.cfg").read().replace("LongSamples = 12", "LongSamples = %d" % (12 if quick else 150))
+    jobs.append(dict(name="Sort/Sort_longlists.cfg", comp=S, module="SortLong", cfg="Sort_longlists.cfg",
+                     kw=dict(workers=1, timeout=900, seed=seed, files={"Sort_longlists.cfg": longcfg}),
+                     note="random inputs of length 13, 14, 17, 24 over 4 values x 4 comparators (stability / permutation above the 12-element threshold)"))
     if quick:
         jobs += [
             dict(name="Sort/Sort_q.cfg", comp=S, module="Sort", cfg="Sort_q.cfg", kw=dict(workers=1, timeout=600),
